@@ -121,7 +121,19 @@ def gen_field(rng, name, used, depth, counter):
     return f
 
 
+SUBCLASS_I = [0]
+
+
+class MyRepeated(RepeatedField):
+    """An application's own subclass of the library's field class (adds nothing): a field declared through it is that kind of field."""
+
+
+class MyMap(MapField):
+    pass
+
+
 def make_lib_field(f):
+    SUBCLASS_I[0] += 1
     k = f['kind']
     if k == 'uint':
         base = {None: int, 'enum': Color, 'flag': Perm}[f.get('base')]
@@ -137,9 +149,9 @@ def make_lib_field(f):
     if k == 'model':
         return ModelField(f['type'], f['spec']['cls'], ignore_critical=f.get('ignore_critical', False))
     if k == 'rep':
-        return RepeatedField(make_lib_field(f['elem']))
+        return (RepeatedField if SUBCLASS_I[0] % 3 else MyRepeated)(make_lib_field(f['elem']))
     if k == 'map':
-        return MapField(make_lib_field(f['key']), make_lib_field(f['val']))
+        return (MapField if SUBCLASS_I[0] % 3 else MyMap)(make_lib_field(f['key']), make_lib_field(f['val']))
     raise ValueError(k)
 
 
